@@ -4,9 +4,9 @@ CONSTANTS
   Threads = {1,2}
   Deadlines = {1,2}
   MaxNow = 2
-  MaxSaves = 2
-  Backend = "memory"
-  Net = FALSE
+  MaxSaves = 3
+  Backend = "files"
+  Net = TRUE
   IntMax = 1000
   GcBatch = 1
   Bug = "none"
